@@ -16,20 +16,28 @@ from bytesets import Evaluator, Undecidable, LIBC
 class Bound(Evaluator):
     """Evaluator with atoms (keyed by var id or by printed text for calls/members) bound to concrete values."""
 
-    def __init__(self, prog, f, by_id, by_text, bind=None):
+    def __init__(self, prog, f, by_id, by_text, bind=None, defs=None):
         Evaluator.__init__(self, prog, f, dict(by_id))
         self.by_text = by_text
         self.bind = bind            # optional callable(expr) -> int or None
+        self.defs = defs or {}      # var id -> expression (if-converted reaching definition of a reassigned local)
 
     def ev(self, e):
         if e is not None and self.bind is not None:
             r = self.bind(e)
             if r is not None:
                 return r
+        if e is not None and self.defs and e.get('k') == 'var' and e.get('id') in self.defs and e.get('id') not in self.env:
+            return self.ev(self.defs[e['id']])
         if e is not None and self.by_text and e.get('k') in ('call', 'mem', 'un', 'idx'):
             t = pe(e)
             if t in self.by_text:
                 return self.by_text[t]
+            if e.get('k') == 'call':
+                # atoms are keyed by their text after reading through single-assignment locals
+                t2 = pe(q.expand(self.f, e))
+                if t2 in self.by_text:
+                    return self.by_text[t2]
         return Evaluator.ev(self, e)
 
     def ev3(self, e):
@@ -321,3 +329,84 @@ def reaches(cfg, ev, target):
 def const_val_(e):
     from ir import const_val
     return const_val(e)
+
+
+def ifconv(f, G, var_id, use):
+    """If-converted reaching definition of a reassigned local at `use`: the declaration initialiser, overridden by each later
+    plain assignment `v = E` (before the use) under the conditions that guard the assignment but not the use:
+        int end = n; if (h > 0) { end = h; }  ... use(end)      ->      (h > 0) ? h : n
+    -> expression, or None when a write is not a plain assignment, sits in a loop, or follows the use."""
+    pos = dict((id(x), i) for i, x in enumerate(G.order))
+    upos = pos.get(id(use))
+    if upos is None:
+        return None
+    init = None
+    for s_ in walk_stmts_(f.get('body')):
+        if s_.get('k') == 'decl':
+            for v in s_['vars']:
+                if v['id'] == var_id:
+                    init = v.get('init')
+    if init is None:
+        return None
+    cur = init
+    use_guards = G.of(use)
+    writes = []
+    for e in G.order:
+        k = e.get('k')
+        tgt = None
+        if k == 'bin' and e.get('op', '').endswith('=') and e['op'] not in ('==', '!=', '<=', '>='):
+            tgt = strip_lv(e['x'])
+        elif k == 'un' and e.get('op') in ('post++', 'post--', 'pre++', 'pre--'):
+            tgt = strip_lv(e['e'])
+        if tgt is not None and tgt.get('k') == 'var' and tgt.get('id') == var_id:
+            writes.append(e)
+    for w in writes:
+        if pos.get(id(w), 10 ** 9) > upos:
+            continue            # after the use (no loop back edge is considered: loops are rejected below)
+        if w.get('k') != 'bin' or w.get('op') != '=':
+            return None
+        wg = G.of(w)
+        if any(kind == 'loop' for _, _, kind in wg) or any(kind == 'loop' for _, _, kind in use_guards):
+            return None
+        extra = [g_ for g_ in wg if not any(g_[0] is ug[0] and g_[1] == ug[1] for ug in use_guards)]
+        cond = None
+        prev = cur
+        for c, pol, kind in extra:
+            if kind == 'case' or not isinstance(pol, bool):
+                return None
+            c = _subst(c, var_id, prev)           # the guard and the stored value read the previous definition
+            term = c if pol else {'k': 'un', 'op': '!', 'e': c, 't': c.get('t')}
+            cond = term if cond is None else {'k': 'bin', 'op': '&&', 'x': cond, 'y': term, 't': c.get('t')}
+        rhs = _subst(w['y'], var_id, prev)
+        cur = rhs if cond is None else {'k': 'cond', 'c': cond, 'x': rhs, 'y': prev, 't': w.get('t')}
+    return cur
+
+
+def _subst(e, var_id, repl):
+    """copy of e with every read of variable var_id replaced by expression repl"""
+    if not isinstance(e, dict):
+        return e
+    if e.get('k') == 'var' and e.get('id') == var_id:
+        return repl
+    out = None
+    from ir import EXPR_CHILD_KEYS, EXPR_LIST_KEYS
+    for key in EXPR_CHILD_KEYS:
+        v = e.get(key)
+        if isinstance(v, dict):
+            nv = _subst(v, var_id, repl)
+            if nv is not v:
+                out = out or dict(e)
+                out[key] = nv
+    for key in EXPR_LIST_KEYS:
+        v = e.get(key)
+        if isinstance(v, list):
+            nl = [_subst(x, var_id, repl) if isinstance(x, dict) else x for x in v]
+            if any(a is not b for a, b in zip(nl, v)):
+                out = out or dict(e)
+                out[key] = nl
+    return out or e
+
+
+def walk_stmts_(s):
+    from ir import walk_stmts
+    return walk_stmts(s)
